@@ -1688,6 +1688,47 @@ func stressShared(seed int64, scale int) int {
 		}
 	}
 	sharedCache.mu.Unlock()
+	// a policy-level listener of a shared breaker may look at the breaker: OnFailure / OnSuccess run before the record, outside the
+	// breaker's lock (only the state-change listeners run under it), and other users of the breaker are not held up by a slow one
+	{
+		var cbl circuitbreaker.CircuitBreaker[int]
+		inListener, release := make(chan struct{}), make(chan struct{})
+		var first sync.Once
+		cbl = circuitbreaker.Builder[int]().WithFailureThreshold(100).
+			OnFailure(func(failsafe.ExecutionEvent[int]) {
+				_ = cbl.State()
+				first.Do(func() { close(inListener); <-release })
+			}).Build()
+		done := make(chan struct{})
+		go func() {
+			failsafe.NewExecutor[int](cbl).Get(func() (int, error) { return 0, errX })
+			close(done)
+		}()
+		stuck := ""
+		select {
+		case <-inListener:
+			other := make(chan struct{})
+			go func() { _ = cbl.State(); cbl.RecordSuccess(); close(other) }()
+			select {
+			case <-other:
+			case <-time.After(2 * time.Second):
+				stuck = "other users of a shared breaker are blocked while one execution's OnFailure listener runs"
+			}
+		case <-time.After(2 * time.Second):
+			stuck = "an OnFailure listener that reads the breaker's state never returned (listener called under the breaker's lock)"
+		}
+		close(release)
+		select {
+		case <-done:
+		case <-time.After(2 * time.Second):
+			if stuck == "" {
+				stuck = "an execution whose OnFailure listener reads the breaker's state never completed"
+			}
+		}
+		if stuck != "" {
+			v.add(stuck)
+		}
+	}
 	// two executions that overlap on ONE key (C11): both miss; the one that finishes first stores its result, and so does the one
 	// that finishes later - "a miss with an error-free inner result is stored" has no exception for a key that got a value meanwhile
 	for round := 0; round < 5; round++ {
